@@ -1,4 +1,5 @@
 import Proofs.FillPackets
+import Proofs.Tie.Cred
 /-!
 # C18 — diagnostics never disclose credentials
 
@@ -79,5 +80,11 @@ example :
     (Packet.connect p).dump = (Packet.connect (p.withCreds [0x78, 0x78] [0x79, 0x79])).dump
     ∧ (Packet.connect p).dump ≠ .panic ∧ (Packet.connect p).string ≠ .panic := by
   decide +kernel
+
+/-- **the source looks at the credentials only to measure them**: outside the setters, the accessors,
+the encoder's `payload` and the decoder, every mention of `username`/`password`/`Username()`/
+`Password()` in the package stands directly under `len(…)` (fact regenerated from /repo on every run) -/
+theorem C18_credentials_only_measured : Facts.credentialUses.all (fun u => u.2.2) = true :=
+  Tie.T6_credentials_only_measured
 
 end Mq
